@@ -714,3 +714,73 @@ def _str_strip(se, a, kw):
 @specfun("quote_plus")
 def _quote_plus(se, a, kw):
     return V(STR, ops.UF("quote_plus", z3.StringSort(), z3.StringSort())(a[0].t))
+
+
+def _uf_spec(name, arg_sorts, ret_ty):
+    def f(se, a, kw):
+        args = []
+        for v, srt in zip(a, arg_sorts):
+            v = unopt(v) if srt == "str" else v
+            args.append(v.t)
+        zs = [z3.StringSort() if s_ == "str" else z3.IntSort() for s_ in arg_sorts]
+        rs = {"str": z3.StringSort(), "int": z3.IntSort(), "bool": z3.BoolSort()}[ret_ty]
+        t = ops.UF(name, *(zs + [rs]))(*args)
+        return V({"str": STR, "int": INT, "bool": BOOL}[ret_ty], t)
+    return f
+
+
+SPECFUNS["fs_isfile"] = _uf_spec("fs_isfile", ["str"], "bool")
+SPECFUNS["fs_exists"] = _uf_spec("fs_exists", ["str"], "bool")
+SPECFUNS["fs_mtime"] = _uf_spec("fs_mtime", ["str"], "int")
+SPECFUNS["normpath"] = _uf_spec("normpath", ["str"], "str")
+SPECFUNS["pjoin"] = _uf_spec("pjoin", ["str", "str"], "str")
+SPECFUNS["pdirname"] = _uf_spec("pdirname", ["str"], "str")
+SPECFUNS["re_sub"] = _uf_spec("re_sub", ["str", "str", "str"], "str")
+SPECFUNS["str_replace_all"] = _uf_spec("str_replace_all", ["str", "str", "str"], "str")
+SPECFUNS["str_lstrip"] = _uf_spec("str_lstrip", ["str", "str"], "str")
+
+
+@specfun("G_str")
+def _g_str(se, a, kw):
+    q = z3.simplify(a[0].t).as_string()
+    return V(STR, z3.Const("G_" + q, z3.StringSort()))
+
+
+@specfun("box_pair")
+def _box_pair(se, a, kw):
+    return box(vtuple([a[0], a[1]]))
+
+
+@specfun("memo_hit")
+def _memo_hit(se, a, kw):
+    """(uri, relativeto) was already in the lookup's memo table on entry"""
+    st = se.old_st if se.old_st is not None else se.st
+    d = st.get_field(a[0], "_uri_cache")
+    dom, _ = st.dict_get(d)
+    return vbool(z3.Select(dom, box(vtuple([a[1], a[2]])).t))
+
+
+def _adjusted_def(u, rnone, r):
+    """documented resolution rule: absolute stays; relative joins the caller's directory; else '/'+uri"""
+    pj = ops.UF("pjoin", z3.StringSort(), z3.StringSort(), z3.StringSort())
+    pd = ops.UF("pdirname", z3.StringSort(), z3.StringSort())
+    return z3.If(z3.SubString(u, 0, 1) == z3.StringVal("/"), u,
+                 z3.If(z3.Not(rnone), pj(pd(r), u), z3.Concat(z3.StringVal("/"), u)))
+
+
+@specfun("adjusted_uri_def")
+def _adjusted_uri_def(se, a, kw):
+    rel = coerce(a[1], Ty("opt", (STR,)))
+    return V(STR, _adjusted_def(a[0].t, rel.isnone, rel.val.t))
+
+
+@specfun("memo_consistent")
+def _memo_consistent(se, a, kw):
+    """every memoised (uri, relativeto) maps to the value the resolution rule gives (uri non-empty)"""
+    d = se.st.get_field(a[0], "_uri_cache")
+    dom, val = se.st.dict_get(d)
+    u, r, rn = z3.String("u!memo"), z3.String("r!memo"), z3.Bool("rn!memo")
+    from .types import vopt
+    key = box(vtuple([V(STR, u), vopt(STR, rn, V(STR, r))])).t
+    return vbool(z3.ForAll([u, r, rn], z3.Implies(z3.Select(dom, key),
+                                                  z3.And(z3.Length(u) > 0, z3.Select(val, key) == _adjusted_def(u, rn, r)))))
